@@ -425,13 +425,15 @@ def run(ctx):
             for x in e[:8]:
                 m_ = _re.fullmatch(r"(\w+)\['([^']+)'\]", x)
                 dk = _DICT_KEYS.get(m_.group(1)) if m_ else None
-                mapped.append(dk[1][dk[0].index(m_.group(2))] if dk and m_.group(2) in dk[0] else None)
+                mapped.append(dk[1][dk[0].index(m_.group(2))] if dk and m_.group(2) in dk[0] else (m_.group(2) if m_ and m_.group(2) in first8 else None))
             if all(v is not None for v in mapped):
                 ok = mapped == first8
                 if not ok:
                     ctx.fail("R2", scf, r, "SCF.backward", "return order",
                              f"SCF.backward returns the cotangents of {mapped} in that order, forward takes {first8}: the gradients of {[a for a, b in zip(mapped, first8) if a != b]} reach the wrong inputs")
                     continue
+        if not ok and _deferred_stop:
+            continue        # integer slots cannot be tied to inputs when the slot bookkeeping itself was not recognised: covered by the analysis stop below, not a verdict
         ctx.check(ok, "R2", scf, r, "SCF.backward", "return order", "SCF.backward returns grads[1..8] followed by None for the non-differentiable inputs",
                   f"SCF.backward returns {e[:10]}...: cotangents do not line up with (M, w, W, gss, gpp, gsp, gp2, hsp)")
 
